@@ -58,6 +58,17 @@ pub fn valid(law: &str, p: &[f64]) -> bool {
     }
 }
 
+/// Validity as the check uses it at run time: the documented domain for finite vectors; for
+/// vectors containing NaN or +-inf (on which the documented domains are silent) the verdict of
+/// the constructor itself, so that constructor, setters and bulk update must at least agree.
+pub fn is_valid(law: &str, p: &[f64]) -> bool {
+    if p.iter().all(|x| x.is_finite()) {
+        valid(law, p)
+    } else {
+        catch(|| Obj::new(law, p)).is_ok()
+    }
+}
+
 #[derive(Clone, Debug)]
 pub enum Obj {
     Normal(Normal),
@@ -307,7 +318,7 @@ fn gen_value(r: &mut Sm, law: &str, which: usize, cur: &[f64], want_valid: bool)
         let c = cur[which];
         let v = match r.below(8) {
             0..=2 => *r.pick(grid_for(law, which)),
-            3 => c * 0.5,
+            3 => *r.pick(&[c * 0.5, c + 1.0, c - 1.0]),
             4 => c * 2.0 + 1.0,
             5 => c - 3.0,
             6 => match law {
@@ -317,7 +328,7 @@ fn gen_value(r: &mut Sm, law: &str, which: usize, cur: &[f64], want_valid: bool)
                 }
                 _ => -c,
             },
-            _ => *r.pick(&[0.0, -0.0, -1.0, -0.5, 1.0 + 1e-9, 1.1, 2.0, -1e-9]),
+            _ => *r.pick(&[0.0, -0.0, -1.0, -0.5, 1.0 + 1e-9, 1.0 + f64::EPSILON, 1.0 - f64::EPSILON / 2.0, 1.1, 2.0, -1e-9, -5e-324, f64::MIN_POSITIVE]),
         };
         let v = if intp { v.round() } else { v };
         if law == "Binomial" && which == 0 && v < 0.0 {
@@ -459,7 +470,12 @@ impl Prop for C18 {
             let invalid = r.chance(p_invalid);
             if t < w_set {
                 let which = r.below(np as u64) as usize;
-                let v = gen_value(&mut r, law, which, &cur, !invalid);
+                let v = if !is_int_param(law, which) && r.chance(0.03) {
+                    // validity unknown to the model: the constructor decides at run time
+                    *r.pick(&[f64::NAN, f64::INFINITY, f64::NEG_INFINITY])
+                } else {
+                    gen_value(&mut r, law, which, &cur, !invalid)
+                };
                 let mut cand = cur.clone();
                 cand[which] = v;
                 if valid(law, &cand) {
@@ -471,7 +487,13 @@ impl Prop for C18 {
             t -= w_set;
             if t < w_upd {
                 let mode = if !invalid { 0 } else { 1 + r.below(3) };
-                let v = gen_vector(&mut r, law, &cur, mode);
+                let mut v = gen_vector(&mut r, law, &cur, mode);
+                if r.chance(0.03) {
+                    let w = r.below(np as u64) as usize;
+                    if !is_int_param(law, w) {
+                        v[w] = *r.pick(&[f64::NAN, f64::INFINITY, f64::NEG_INFINITY]);
+                    }
+                }
                 if valid(law, &v) {
                     cur = v.clone();
                 }
@@ -621,7 +643,7 @@ impl Prop for C18 {
     }
     fn expected_counters(tier: Tier) -> Vec<String> {
         let mut v: Vec<String> = [
-            "step.set.valid", "step.set.invalid", "step.update.valid", "step.update.invalid",
+            "step.nonfinite", "step.set.valid", "step.set.invalid", "step.update.valid", "step.update.invalid",
             "step.new.valid", "step.new.invalid", "step.clone", "step.compare", "outcome.rejected",
             "outcome.accepted", "by.New", "by.Set", "by.Update", "by.Clone", "by.Drop", "by.Density",
             "fault.reject", "fault.partial", "resync.after_partial", "compare.fresh_thread", "compare.bulk",
@@ -689,6 +711,11 @@ fn compare_full(subject: &Obj, law: &str, params: &[f64], seed: u64, k: usize, s
     if so.var != to.var {
         return Err(("stale_var".into(), format!("var differs from a fresh {}({:?}): {:?} vs {:?}", law, params, so.var.map(f64::from_bits), to.var.map(f64::from_bits))));
     }
+    if !params.iter().all(|x| x.is_finite()) {
+        // samplers need not terminate (or even draw) on NaN / infinite parameters: the closed-form
+        // observables above are all that is compared
+        return Ok(());
+    }
     let base = alea::sim::draws();
     let shifted: Vec<(u64, u64)> = script.iter().map(|(a, r)| (base + a, *r)).collect();
     alea::sim::set_script(&shifted);
@@ -712,7 +739,7 @@ fn mixtures(law: &str, old: &[f64], new: &[f64]) -> Vec<Vec<f64>> {
     let mut out: Vec<Vec<f64>> = vec![];
     for mask in 0..(1u32 << np) {
         let cand: Vec<f64> = (0..np).map(|i| if mask & (1 << i) != 0 { new[i] } else { old[i] }).collect();
-        if valid(law, &cand) && !out.iter().any(|o| slice_bits_eq(o, &cand).is_none()) {
+        if is_valid(law, &cand) && !out.iter().any(|o| slice_bits_eq(o, &cand).is_none()) {
             out.push(cand);
         }
     }
@@ -746,7 +773,7 @@ fn exec_history(case: &Case, st: &mut Stats) -> Option<Viol> {
         alea::sim::clear_budget();
         v
     };
-    if init.len() != np || !valid(law, &init) {
+    if init.len() != np || !is_valid(law, &init) {
         // (only reachable through a hand-edited replay file)
         return finish(st, &mut h, &dh, None, 0);
     }
@@ -886,26 +913,43 @@ fn exec_history(case: &Case, st: &mut Stats) -> Option<Viol> {
                         }
                     }
                 }
-                // bulk forms == the loop of single draws from the same seed
-                let nb = [0usize, 0, 33, 257, 5000, 0, 70_001, 0][(seed.0 >> 8) as usize % 8];
-                if nb > 0 && a0.end.is_empty() {
+                // bulk form: reproducible from the seed, and identical to the bulk draw of a fresh twin
+                let nb = match (seed.0 >> 8) % 32 { 0 => 33usize, 1 => 257, 2 => 4096, 3 => 5000, 4 => 8192, 5 => 65_536, 6 => 70_001, 7 => 131_072, _ => 0 };
+                let finite_model = models.len() == 1 && models[0].iter().all(|x| x.is_finite());
+                if nb > 0 && a0.end.is_empty() && finite_model {
                     st.inc("compare.bulk");
-                    alea::set_seed(seed.0);
-                    alea::sim::set_budget(SAMPLE_BUDGET + 64 * nb as u64);
-                    let bulk = catch(|| subject.sample_n(nb));
-                    alea::set_seed(seed.0);
-                    alea::sim::set_budget(SAMPLE_BUDGET + 64 * nb as u64);
-                    let single = catch(|| (0..nb).map(|_| subject.sample()).collect::<Vec<f64>>());
-                    alea::sim::clear_budget();
-                    let same = match (&bulk, &single) {
+                    let bulk = |o: &Obj| {
+                        alea::set_seed(seed.0);
+                        alea::sim::set_budget(SAMPLE_BUDGET + 64 * nb as u64);
+                        let r = catch(|| o.sample_n(nb));
+                        alea::sim::clear_budget();
+                        r
+                    };
+                    let b1 = bulk(&subject);
+                    let b2 = bulk(&subject);
+                    let same = |x: &Result<Vec<f64>, String>, y: &Result<Vec<f64>, String>| match (x, y) {
                         (Ok(a), Ok(b)) => slice_bits_eq(a, b).is_none(),
                         (Err(_), Err(_)) => true,
                         _ => false,
                     };
-                    if !same {
-                        let v = mk("reproducible", "bulk_differs_from_single_draws", "compare",
-                            format!("seed {:#x}: sample_n({}) differs from {} successive sample() calls from the same seed", seed.0, nb, nb));
+                    if let Ok(v) = &b1 {
+                        if v.len() != nb {
+                            let v = mk("reproducible", "bulk_wrong_count", "compare", format!("sample_n({}) returned {} values", nb, v.len()));
+                            return finish(st, &mut h, &dh, v, mutations);
+                        }
+                    }
+                    if !same(&b1, &b2) {
+                        let v = mk("reproducible", "bulk_irreproducible", "compare",
+                            format!("seed {:#x}: two calls of sample_n({}) from the same seed differ", seed.0, nb));
                         return finish(st, &mut h, &dh, v, mutations);
+                    }
+                    if let Ok(twin) = catch(|| Obj::new(law, &models[0])) {
+                        let b3 = bulk(&twin);
+                        if !same(&b1, &b3) {
+                            let v = mk("equals_fresh_twin", "stale_bulk_stream", "compare",
+                                format!("seed {:#x}: sample_n({}) differs from that of a fresh {}({:?})", seed.0, nb, law, models[0]));
+                            return finish(st, &mut h, &dh, v, mutations);
+                        }
                     }
                 }
                 for x in &a0.vals {
@@ -938,7 +982,10 @@ fn exec_history(case: &Case, st: &mut Stats) -> Option<Viol> {
                     Some(t) => t,
                     None => continue,
                 };
-                let ok0 = valid(law, &t0);
+                let ok0 = is_valid(law, &t0);
+                if !t0.iter().all(|x| x.is_finite()) {
+                    st.inc("step.nonfinite");
+                }
                 let kind = if is_new { "new" } else if is_update { "update" } else { "set" };
                 st.inc(&format!("step.{}.{}", kind, if ok0 { "valid" } else { "invalid" }));
                 dh.u(if is_new { 1 } else if is_update { 2 } else { 3 });
@@ -963,7 +1010,7 @@ fn exec_history(case: &Case, st: &mut Stats) -> Option<Viol> {
                 let mut next: Vec<Vec<f64>> = vec![];
                 for m in &models {
                     let t = target(m).unwrap();
-                    let ok = valid(law, &t);
+                    let ok = is_valid(law, &t);
                     if ok != res.is_ok() {
                         continue;
                     }
